@@ -283,8 +283,15 @@ impl<'l, T: Debug> OrderedLocalQueue<'l, T> {
     /// assert_eq!(local.pop(), None);
     /// ```
     pub fn push_with_priority(&self, priority: c_longlong, item: T) {
+        // The workers of a local queue tolerate one producer at a time, but tasks are
+        // submitted from arbitrary threads and a steal also produces into our workers:
+        // take turns through the same flag that guards stealing.
+        while !self.try_lock() {
+            std::thread::yield_now();
+        }
         if self.is_local_full() {
             self.push_to_global(priority, item);
+            self.release_lock();
             return;
         }
         if let Err(item) = self
@@ -299,6 +306,7 @@ impl<'l, T: Debug> OrderedLocalQueue<'l, T> {
             self.len
                 .store(self.local_len().saturating_add(1), Ordering::Release);
         }
+        self.release_lock();
     }
 
     /// Recount the local queue, siblings steal from it without touching `len`.
